@@ -19,8 +19,14 @@ pub mod c08;
 pub mod c09;
 pub mod c10;
 pub mod c11;
+pub mod c12;
 pub mod c13;
 pub mod c14;
+pub mod c15;
+pub mod c16;
+pub mod c17;
+pub mod c18;
+pub mod c19;
 
 pub fn scenarios(prop: &str, tier: Tier) -> Vec<Scenario> {
     match prop {
@@ -35,10 +41,20 @@ pub fn scenarios(prop: &str, tier: Tier) -> Vec<Scenario> {
         "C09" => c09::scenarios(tier),
         "C10" => c10::scenarios(tier),
         "C11" => c11::scenarios(tier),
+        "C12" => c12::scenarios(tier),
         "C13" => c13::scenarios(tier),
         "C14" => c14::scenarios(tier),
+        "C15" => c15::scenarios(tier),
+        "C16" => c16::scenarios(tier, seed()),
+        "C17" => c17::scenarios(tier),
+        "C18" => c18::scenarios(tier),
+        "C19" => c19::scenarios(tier),
         _ => vec![],
     }
+}
+
+pub fn seed() -> i64 {
+    std::env::var("VERIF_SEED").ok().and_then(|s| s.parse().ok()).unwrap_or(0)
 }
 
 pub fn extra_checks(_prop: &str, _tier: Tier, _seed: i64) -> Option<Extra> {
